@@ -58,7 +58,7 @@ def _seg_ok(Pf, lo, hi, ms, bst, A, Bq, Babs, score):
         ('prefix_sums_positive', forall(T, z3.Implies(z3.And(A < T, T <= Bq), Pf(T) - Pf(A) > 0), [Pf(T)])),
         ('never_falls_threshold_below_running_max',
          forall([U, T], z3.Implies(z3.And(A < U, U < T, T <= Bq), Pf(T) > Pf(U) - bst),
-                [z3.MultiPattern(Pf(U), Pf(T))])),
+                [MP(Pf(U), Pf(T))])),
         ('ends_at_first_maximum', forall(U, z3.Implies(z3.And(A < U, U < Bq), Pf(U) < Pf(Bq)), [Pf(U)])),
         ('not_improvable_before_break', forall(T, z3.Implies(z3.And(Bq < T, T <= Babs), Pf(T) <= Pf(Bq)), [Pf(T)])),
         ('break_was_forced', z3.Or(Babs == hi, Pf(Babs + 1) - Pf(A) <= zmax(0, score - bst))),
@@ -109,7 +109,7 @@ def _builder_inv(L):
            ('extended_score_is_window_sum', ext == Pf(E) - Pf(S)),
            ('window_prefixes_positive', forall(T, z3.Implies(z3.And(S < T, T <= E), Pf(T) - Pf(S) > 0), [Pf(T)])),
            ('window_respects_threshold', forall([U, T], z3.Implies(z3.And(S < U, U < T, T <= E), Pf(T) > Pf(U) - bst),
-                                                [z3.MultiPattern(Pf(U), Pf(T))])),
+                                                [MP(Pf(U), Pf(T))])),
            ('current_dominates_window', forall(U, z3.Implies(z3.And(S < U, U <= E), Pf(U) - Pf(S) <= cs), [Pf(U)])),
            ('current_segment_shape', z3.Or(fresh, own, stale)),
            ('ghost_sync', brk.len == R.len)]
